@@ -859,6 +859,91 @@ func c16ReadAtEOF(r *core.Report) {
 	})
 	r.Check(okRel, rule, f.Key+"#relative-offset", posP(r, f.Pos()), "segment i is read through readers[i] at off minus offsets[i]",
 		"the segment read does not use readers[i] at off - offsets[i]")
+	c16WrapperForwards(r, f)
+}
+
+// c16WrapperForwards (C16.R5, e): the reader handed to the server, SplitCarReader.ReadAt, takes no end-of-stream decision
+// of its own: every return that reports success or io.EOF is the result of the segment reader's ReadAt called with the
+// caller's buffer and offset unchanged. (The segment table - original header plus every piece - lives in MultiReaderAt; a
+// private size computed from the piece list alone reports end-of-file one header length early.)
+func c16WrapperForwards(r *core.Report, multi *core.Func) {
+	const rule = "C16.R5"
+	p := r.Prog
+	w := r.Anchor(rule, "split-car-fetcher.(*SplitCarReader).ReadAt")
+	if w == nil {
+		return
+	}
+	info := w.Pkg.TypesInfo
+	g := p.Graph(w)
+	isFwdCall := func(e ast.Expr) bool {
+		c, ok := core.Unparen(e).(*ast.CallExpr)
+		if !ok || len(c.Args) != 2 {
+			return false
+		}
+		fo := core.Callee(info, c)
+		if fo == nil || multi.Obj == nil {
+			return false
+		}
+		if fo.Origin() != multi.Obj.Origin() {
+			// through a field typed io.ReaderAt that only ever holds the segment reader
+			sel, isSel := core.Unparen(c.Fun).(*ast.SelectorExpr)
+			if !isSel || fo.Name() != "ReadAt" {
+				return false
+			}
+			fs, isFS := core.Unparen(sel.X).(*ast.SelectorExpr)
+			if !isFS {
+				return false
+			}
+			fld, isVar := info.Uses[fs.Sel].(*types.Var)
+			if !isVar || !fld.IsField() || !fieldOnlyHolds(p, w, fld, multi) {
+				return false
+			}
+		}
+		return w.ParamObj(0) != nil && core.ObjOf(info, c.Args[0]) == types.Object(w.ParamObj(0)) && core.ObjOf(info, c.Args[1]) == types.Object(w.ParamObj(1))
+	}
+	// locals bound to the forwarded call's results
+	fwdN, fwdErr := map[types.Object]bool{}, map[types.Object]bool{}
+	for _, nd := range stmtNodes(g) {
+		if as, ok := nd.Ast.(*ast.AssignStmt); ok && len(as.Rhs) == 1 && len(as.Lhs) == 2 && isFwdCall(as.Rhs[0]) {
+			if o := core.ObjOf(info, as.Lhs[0]); o != nil {
+				fwdN[o] = true
+			}
+			if o := core.ObjOf(info, as.Lhs[1]); o != nil {
+				fwdErr[o] = true
+			}
+		}
+	}
+	nRet, nFwd := 0, 0
+	for _, rn := range g.Returns() {
+		nRet++
+		res := returnResults(rn)
+		key := fmt.Sprintf("%s#return@%d-forwards-the-segment-reader", w.Key, nRet)
+		if len(res) == 1 && isFwdCall(res[0]) {
+			nFwd++
+			r.OK(rule, key, pos(r, rn.Ast), "the segment reader's result is returned as is")
+			continue
+		}
+		if len(res) == 2 {
+			if fwdErr[core.ObjOf(info, res[1])] && (fwdN[core.ObjOf(info, res[0])]) {
+				nFwd++
+				r.OK(rule, key, pos(r, rn.Ast), "the segment reader's result is returned")
+				continue
+			}
+			// a failure of its own (not end-of-file, not success) is not an end-of-stream decision
+			if c, ok := core.Unparen(res[1]).(*ast.CallExpr); ok && isErrorConstructor(info, c) {
+				r.OK(rule, key, pos(r, rn.Ast), "an error of the wrapper's own (not io.EOF)")
+				continue
+			}
+		}
+		if len(res) == 0 {
+			r.Undecided(rule, key, pos(r, rn.Ast), "bare return: results not identified")
+			continue
+		}
+		r.Violation(rule, key, pos(r, rn.Ast), "SplitCarReader.ReadAt decides the outcome of a read itself ("+core.ExprStr(rn.Ast.(*ast.ReturnStmt).Results[len(res)-1])+") instead of forwarding the segment reader's result: end-of-file (or success) can be reported for an offset the segment table - original header plus every piece - still covers")
+	}
+	if nFwd == 0 {
+		r.Violation(rule, w.Key+"#forwards", posP(r, w.Pos()), "SplitCarReader.ReadAt never forwards to the segment reader with the caller's buffer and offset")
+	}
 }
 
 func c16OnePiecePerBlock(r *core.Report) {
@@ -1012,4 +1097,47 @@ func c16OnePiecePerBlock(r *core.Report) {
 	})
 	r.Check(okFamily && okLoop, rule, root.Key+"#family-written-in-order", pos(r, wcall), "the block's objects are written children first, block last, each member once, in range order",
 		"the family handed to the writer is not children-then-block written member by member in order")
+}
+
+// fieldOnlyHolds: every assignment to the field fld in w's package stores a value whose static type is the receiver type
+// of impl (here: *MultiReaderAt), and there is at least one.
+func fieldOnlyHolds(p *core.Prog, w *core.Func, fld *types.Var, impl *core.Func) bool {
+	sig, ok := impl.Obj.Type().(*types.Signature)
+	if !ok || sig.Recv() == nil {
+		return false
+	}
+	want := sig.Recv().Type()
+	n, bad := 0, false
+	for _, f := range p.AllFns {
+		if f.Pkg != w.Pkg || f.Body == nil {
+			continue
+		}
+		info := f.Pkg.TypesInfo
+		ast.Inspect(f.Body, func(m ast.Node) bool {
+			switch x := m.(type) {
+			case *ast.FuncLit:
+				return false
+			case *ast.AssignStmt:
+				for i, l := range x.Lhs {
+					sel, ok := core.Unparen(l).(*ast.SelectorExpr)
+					if !ok || info.Uses[sel.Sel] != types.Object(fld) || len(x.Lhs) != len(x.Rhs) {
+						continue
+					}
+					n++
+					if t := info.TypeOf(x.Rhs[i]); t == nil || !types.Identical(t, want) {
+						bad = true
+					}
+				}
+			case *ast.KeyValueExpr:
+				if id, ok := x.Key.(*ast.Ident); ok && info.Uses[id] == types.Object(fld) {
+					n++
+					if t := info.TypeOf(x.Value); t == nil || !types.Identical(t, want) {
+						bad = true
+					}
+				}
+			}
+			return true
+		})
+	}
+	return n > 0 && !bad
 }
